@@ -9,7 +9,40 @@ import (
 	"sort"
 	"strconv"
 	"strings"
+	"sync/atomic"
+	"time"
 )
+
+// ---- watchdog: a call into the implementation that does not return within the limit is
+// reported as a failing input of the property ("never hangs") and ends the run.
+var (
+	wdDesc  atomic.Value
+	wdStart atomic.Int64
+	wdLimit = 20 * time.Second
+)
+
+func (o *out) guard(prop, key, desc string, f func()) {
+	wdDesc.Store([3]string{prop, key, desc})
+	wdStart.Store(time.Now().UnixNano())
+	defer wdStart.Store(0)
+	f()
+}
+
+func startWatchdog(o *out) {
+	go func() {
+		for {
+			time.Sleep(200 * time.Millisecond)
+			s := wdStart.Load()
+			if s != 0 && time.Now().UnixNano()-s > int64(wdLimit) {
+				d := wdDesc.Load().([3]string)
+				o.w.WriteString("#PROPFAIL\t" + d[0] + "\t" + d[1] + "\t" + d[2] + " (no return within " + wdLimit.String() + ")\n")
+				o.propFail++
+				o.close()
+				os.Exit(3)
+			}
+		}
+	}()
+}
 
 // ---- deterministic PRNG (splitmix64); every random choice derives from VERIF_SEED ----
 type rng struct{ s uint64 }
@@ -45,6 +78,7 @@ type out struct {
 	hist     map[string]int // input distribution
 	distinct map[string]struct{}
 	samples  []string
+	key      string
 }
 
 func newOut(path string) *out {
@@ -86,8 +120,11 @@ func (o *out) prop(id string, ok bool, what string) {
 		return
 	}
 	o.propFail++
-	o.w.WriteString("#PROPFAIL\t" + id + "\t" + what + "\n")
+	o.w.WriteString("#PROPFAIL\t" + id + "\t" + o.key + "\t" + what + "\n")
 }
+
+// withKey sets the known-findings key attached to the PROPFAIL lines that follow
+func (o *out) withKey(k string) *out { o.key = k; return o }
 func (o *out) count(class string) { o.hist[class]++ }
 func (o *out) nontrivial(key string) { o.distinct[key] = struct{}{} }
 func (o *out) close() {
@@ -172,6 +209,7 @@ func main() {
 		os.Exit(2)
 	}
 	o := newOut(c.out)
+	startWatchdog(o)
 	e(c, o)
 	o.close()
 }
